@@ -1,6 +1,6 @@
 (* C06 -- generated unit files read back exactly as generated; values cannot forge lines. *)
 From QV Require Import Model.Base Model.Quote Model.Unquote Model.PortRange Model.Unit Model.Lex Model.Parser Spec.Layout
-  Model.Path Model.Names Model.Convert Model.Process Proofs.C01 Proofs.C03 Proofs.C06 Proofs.C06run.
+  Model.Path Model.Names Model.Convert Model.Process Proofs.C01 Proofs.C03 Proofs.C06 Proofs.C06shape.
 
 (* a unit whose section names are distinct, non-empty and free of ']' and newline, whose keys are non-empty key
    characters and whose raw values are validated, newline-free, without leading blank or trailing white space,
@@ -27,7 +27,7 @@ Proof. exact write_calls_concat. Qed.
    emit a control character; keys and section names are literals) ... *)
 Theorem C06_generated_services_have_no_newline : forall podman exists_path kill_fixed mount_nl files p svc sp,
   In (p, ROk svc sp) (snd (process_files podman exists_path kill_fixed mount_nl files)) -> no_nl_unit svc.
-Proof. intros. apply NoNL_is. eapply run_services_have_no_newline. eassumption. Qed.
+Proof. intros. apply NoNL_no_nl. eapply run_services_have_no_newline. eassumption. Qed.
 
 (* ... so the file written for it has exactly one physical line per entry and two per section: no value can add, split or swallow a line *)
 Theorem C06_generated_services_line_count : forall podman exists_path kill_fixed mount_nl files p svc sp,
@@ -35,14 +35,34 @@ Theorem C06_generated_services_line_count : forall podman exists_path kill_fixed
   count_nl (to_string svc) = (fold_right (fun s n => 2 + length (snd s) + n) 0 svc)%nat.
 Proof. exact run_services_line_count. Qed.
 
-(* the same for a single conversion of any unit without newlines in its names, keys and values *)
-Theorem C06_conversion_adds_no_newline : forall podman exists_path kill_fixed mount_nl u path t tbl svc sp tbl',
-  no_nl_unit u -> convert_one podman exists_path kill_fixed mount_nl u path t tbl = COk (svc, sp, tbl') -> no_nl_unit svc.
-Proof. intros podman ep kf mn u path t tbl svc sp tbl' Hu H. apply NoNL_is. eapply convert_nn; [apply NoNL_is; exact Hu|exact H]. Qed.
+(* Shaped u := NoDup (map fst u) /\ every section name is non-empty, without ']' and newline /\ every key is key characters without newline /\ every value is without newline *)
+Definition Shaped := NoNL.
 
-Theorem C06_parsed_units_have_no_newline : forall text u, parse_unit text = Some u -> no_nl_unit u.
-Proof. intros text u H. apply NoNL_is. eapply parsed_units_have_no_newline. exact H. Qed.
+(* a single conversion keeps that shape *)
+Theorem C06_conversion_keeps_the_shape : forall podman exists_path kill_fixed mount_nl u path t tbl svc sp tbl',
+  Shaped u -> convert_one podman exists_path kill_fixed mount_nl u path t tbl = COk (svc, sp, tbl') -> Shaped svc.
+Proof. intros podman ep kf mn u path t tbl svc sp tbl' Hu H. eapply convert_nn; [exact Hu|exact H]. Qed.
+
+Theorem C06_parsed_units_are_shaped : forall text u, parse_unit text = Some u -> Shaped u.
+Proof. exact parsed_units_have_no_newline. Qed.
+
+(* the shape of every generated service, over the whole run: section names distinct, non-empty, without ']' and newline; keys made of key
+   characters only (a-z A-Z 0-9 '-', possibly none), without newline; values without newline.  This is the well-formedness that
+   C06_roundtrip asks of a unit, except for what concerns the VALUES' own spelling (validated, no blank at an edge: the known class) *)
+Theorem C06_generated_services_are_shaped : forall podman exists_path kill_fixed mount_nl files p svc sp,
+  In (p, ROk svc sp) (snd (process_files podman exists_path kill_fixed mount_nl files)) -> Shaped svc.
+Proof. exact run_services_have_no_newline. Qed.
 
 Check C06_roundtrip : forall u : unit, WF_unit u -> parse_unit (to_string u) = Some u.
 Check C06_generated_services_have_no_newline : forall podman exists_path kill_fixed mount_nl files p svc sp,
   In (p, ROk svc sp) (snd (process_files podman exists_path kill_fixed mount_nl files)) -> no_nl_unit svc.
+
+(* ---- the generator clause over the whole run ---- *)
+(* every service of a run of the generator -- arbitrary file contents -- whose entries have non-empty keys and validated values without a
+   blank at an edge (EntriesOk; the excluded values are the known class BlankAtValueEdge) is read back, from the very text the generator
+   writes, as exactly itself: same sections, same entries, same order.  (That the generated entries ARE validated is C11's subject:
+   C11_stored_values_readable and the [Service] invariant of Proofs/C11run.v; for [Unit] it is checked by the oracle.) *)
+Theorem C06_generated_services_read_back : forall podman exists_path kill_fixed mount_nl files p svc sp,
+  In (p, ROk svc sp) (snd (process_files podman exists_path kill_fixed mount_nl files)) ->
+  EntriesOk svc -> parse_unit (to_string svc) = Some svc.
+Proof. exact run_services_read_back. Qed.
